@@ -120,6 +120,11 @@ var registry = []Harness{
 		Bound: "committee size param 0, Inner Ring size param 1, Alphabet contract index param 2; contract balance g symbolic 0..10^12; invoker symbolic (any committee member or a stranger); native GAS ledger stub (DESIGN.md 2.3)"},
 	{Prop: "C19", Pkg: "alphabet", Func: "VerifC19Payments", Link: []string{"alphabet", "proxy", "processing", "neofs"},
 		Bound: "GAS transfers of a symbolic amount 0..1000 to Proxy, Processing and Alphabet; direct calls of their onNEP17Payment"},
+	{Prop: "C13", Pkg: "deploy", Func: "VerifC13DivideFunds", Native: true, Unwind: 20,
+		Quick: [][]int{{1}, {2}, {3}, {7}}, Thorough: [][]int{{1}, {2}, {3}, {4}, {5}, {6}, {7}, {8}, {9}, {10}, {11}, {12}, {13}, {14}, {15}, {16}},
+		Bound: "native-Go mode (fixed-width integers): divideFundsEvenly for n = param receivers and every 64-bit amount"},
+	{Prop: "C13", Pkg: "deploy", Func: "VerifC13TxWindow", Native: true,
+		Bound: "native-Go mode: neoFSRuntimeTransactionModifier for every 32-bit height (two symbolic heights) and both invocation outcomes; actor.DefaultCheckerModifier stubbed by its documented contract (error iff state != HALT)"},
 }
 
 func ipv4Shapes() [][]int {
@@ -147,4 +152,5 @@ func allTriples(n int) [][]int {
 	}
 	return out
 }
+
 
